@@ -137,8 +137,9 @@ def gen_case(rng, tmpl, all_paths, valid_base=None):
                 set_at(cfg, par_ + (rng.choice([7, None, (1, 2), True, 1.5]),), 1)
                 muts.append([list(par_), "nonstring-key"])
             elif kind == "scalar_subtree":
+                p = p[:rng.randint(1, len(p))]  # an interior node of the key tree (section or sub-section)
                 if isinstance(get_at(tmpl, p), dict):
-                    v = rng.choice([1, "x", [], None, True, [{"a": 1}]])
+                    v = rng.choice([1, "x", [], None, None, True, [{"a": 1}], {}])
                     set_at(cfg, p, v)
                     muts.append([list(p), "subtree->" + _kind_of(v)])
             elif kind == "delete":
@@ -170,6 +171,10 @@ VALID_ALTS = {
     "t2.exact_recent_days": [0, 1, 365], "t2.clusters_top_m": [1, 10], "t2.residual_cap_per_turn": [0, 1], "k_surface": [8, 32],
     "t1.cache.enabled": [False], "t2.cache.enabled": [False], "t4.cache.enabled": [False],
 }
+
+
+HOSTILE = ["nan", "NaN", " nan ", "-nan", "inf", "-Infinity", "1e999", "1e-999", "0x10", "1_000", "١٢", "true", "null", "", NAN, INF, -INF, 1e308, -1e308, 1e200, 10 ** 400,
+           -10 ** 400, 5e-324, -0.0, 2 ** 63, 2 ** 31, -1, 0, 1, 0.5, True, False, None, [], {}, [[1]], [{"a": 1}], [None], ["x", 1], {"a": [1]}, [NAN]]
 
 
 def _kind_of(v):
@@ -401,7 +406,11 @@ def small_worlds():
                     "edges": [["e0", "n0", "n1", 0.8, "supports"], ["e1", "n1", "n2", 0.5, "associates"], ["e2", "n2", "n0", -0.7, "contradicts"]]}}
         eps = [{"id": f"ep{i}", "owner": o, "text": t, "ts": "2023-11-10T00:00:00Z", "vec": "enc", "aux": {"importance": 0.5}}
                for i, (o, t) in enumerate([("A", "hello world again"), ("B", "secret of B hello"), ("A", "the reply was nice"), ("world", "world fact moon")])]
-        WORLDS = [{"graphs": {}, "eps": []}, {"graphs": g, "eps": eps, "gel": [["ep0", "ep2", 0.6]]}, {"graphs": g, "eps": eps[:2]}]
+        # a graph at the edges of the float range (tiny / huge / denormal weights along a chain)
+        gx = {"gx": {"nodes": [["x0", "hello", None], ["x1", "a", None], ["x2", "b", None], ["x3", "world", None], ["x4", "c", None], ["x5", "d", None]],
+                     "edges": [["f0", "x0", "x1", 1e-200, "supports"], ["f1", "x1", "x2", 1e-200, "supports"], ["f2", "x3", "x4", 1e300, "supports"], ["f3", "x4", "x5", 5e-324, "associates"],
+                               ["f4", "x2", "x3", -1e-300, "contradicts"]]}}
+        WORLDS = [{"graphs": {}, "eps": []}, {"graphs": g, "eps": eps, "gel": [["ep0", "ep2", 0.6]]}, {"graphs": g, "eps": eps[:2]}, {"graphs": gx, "eps": eps[:1]}]
     return WORLDS
 
 
@@ -440,7 +449,7 @@ def engine_round(norm, sess, case, muts):
                     return
 
 
-def check_case(cfg, muts, sess, engine=True, script=True):
+def check_case(cfg, muts, sess, engine=True, script=True, seen_norm=None):
     case = {"cfg": cfg, "muts": muts}
     sess.evaluations += 1
     sess.count("configs_validated")
@@ -461,8 +470,16 @@ def check_case(cfg, muts, sess, engine=True, script=True):
             kind = _kind_of(v)
             sess.violation(f"accepted-out-of-range:{path}:{kind}", case, {"value": v})
         if engine and len(muts) <= 1 and not bad:
-            engine_round(norm, sess, case, muts)
-            sess.count("configs_executed")
+            key = None
+            if seen_norm is not None:
+                key = deep_repr(norm)
+            if key is None or key not in seen_norm:
+                engine_round(norm, sess, case, muts)
+                sess.count("configs_executed")
+                if key is not None:
+                    seen_norm.add(key)
+            else:
+                sess.count("sweep_configs_normalising_to_an_already_executed_config")
         sess.nontrivial.add(chash(case))
     else:
         sess.count("configs_rejected")
@@ -500,6 +517,25 @@ def _chunk(args):
         for _ in range(n):
             cfg, muts = gen_case(rng, tmpl, allp)
             check_case(cfg, muts, sess)
+        # systematic sweep: every leaf of the key tree x every hostile scalar, and every interior node x every non-object
+        # (one mutation of the valid template / of the empty config each, so accepted ones are also executed)
+        sweep = [(p_, v_) for p_ in allp for v_ in HOSTILE]
+        interior = sorted({p_[:j] for p_ in allp for j in range(1, len(p_))})
+        sweep += [(p_, v_) for p_ in interior for v_ in (None, 1, "x", [], True, {})]
+        nchunks = par.NWORK
+        seen_norm = set()
+        for j, (p_, v_) in enumerate(sweep):
+            if j % nchunks != i % nchunks:
+                continue
+            for start in ("tmpl", "empty"):
+                cfg = copy.deepcopy(tmpl) if start == "tmpl" else {}
+                try:
+                    set_at(cfg, p_, copy.deepcopy(v_))
+                except Exception:
+                    continue
+                sess.count("sweep_cases")
+                # quick tier: the validator / script oracles see the whole sweep; the engine runs on the template-based half
+                check_case(cfg, [[list(p_), "sweep:" + repr(v_)[:20]]], sess, engine=(tier != "quick" or start == "tmpl"), seen_norm=seen_norm)
         for _ in range(ncli):
             cfg, muts = gen_case(rng, tmpl, allp)
             if not yaml_able(cfg):
